@@ -382,7 +382,7 @@ def cmp_margins(w: World, f, st, b) -> List[Fraction]:
         if not isinstance(f, list) or not f:
             return
         h = f[0]
-        if h in ("and", "or", "not", "imply"):
+        if h in ("and", "or", "not", "imply", "when"):
             for x in f[1:]:
                 go(x, b)
         elif h in ("forall", "exists"):
